@@ -204,7 +204,17 @@ fn exec(ctx: &Arc<Ctx>, node: &Node, depth: usize, under_predicate: bool) {
     }
 }
 
-pub fn run_case(bytes: &[u8], _t: Tier) -> CaseOut {
+pub fn run_case(bytes: &[u8], t: Tier) -> CaseOut {
+    run_focus(bytes, t, false)
+}
+
+/// C16 variant: the same re-entrant programs; a panic (for instance a thread-local cache
+/// re-borrowing its RefCell when a body calls another cached function) is the violation.
+pub fn run_case_c16(bytes: &[u8], t: Tier) -> CaseOut {
+    run_focus(bytes, t, true)
+}
+
+fn run_focus(bytes: &[u8], _t: Tier, panics: bool) -> CaseOut {
     let case = decode(bytes);
     let mut out = CaseOut { key: hash_of(&case), ..CaseOut::default() };
     let corpus = static_corpus();
@@ -245,6 +255,7 @@ pub fn run_case(bytes: &[u8], _t: Tier) -> CaseOut {
         out.classes.push("nested_inside_invalidation_predicate");
     }
     match rep.outcome {
+        vsched::Outcome::Deadlock(_) if panics => out.aborted_foreign = true,
         vsched::Outcome::Deadlock(w) => {
             let node = &case.program[stage.get().min(case.program.len().saturating_sub(1))];
             out.violation = Some(Violation {
@@ -262,10 +273,21 @@ pub fn run_case(bytes: &[u8], _t: Tier) -> CaseOut {
         }
         vsched::Outcome::StepLimit => out.aborted_foreign = true,
         vsched::Outcome::Completed => {
-            if rep.panics.first().map(|p| p.is_some()).unwrap_or(false) {
-                // a panic is C16's business
-                out.aborted_foreign = true;
-                out.classes.push("aborted_by_panic");
+            if let Some(Some(msg)) = rep.panics.first() {
+                if panics {
+                    let node = &case.program[stage.get().min(case.program.len().saturating_sub(1))];
+                    out.violation = Some(Violation {
+                        signature: "C16:nested:panic".into(),
+                        clause: "panic".into(),
+                        step: stage.get(),
+                        expected: "a call into the library made from a body, a cache_if / invalidate_on function or an invalidation predicate of another cache completes".into(),
+                        observed: format!("panic: {} (program step {}: {:?})", msg.chars().take(200).collect::<String>(), stage.get(), node),
+                    });
+                } else {
+                    // a panic is C16's business
+                    out.aborted_foreign = true;
+                    out.classes.push("aborted_by_panic");
+                }
             }
         }
     }
